@@ -863,6 +863,70 @@ pub fn f8(b: &Bounds) -> Vec<GenProg> {
     out
 }
 
+/// F9: atoms carrying SEVERAL selections at once (two constants, constant + repeated variable, a variable three
+/// times) over a ternary relation, alone and joined with another atom.
+pub fn f9(b: &Bounds) -> Vec<GenProg> {
+    let mut out = vec![];
+    let watoms: Vec<Vec<Term>> = vec![
+        vec![X, Const(1), Const(2)],
+        vec![X, X, Const(1)],
+        vec![X, X, X],
+        vec![X, Y, Const(1)],
+        vec![X, Const(1), Y],
+        vec![Const(1), X, Const(2)],
+        vec![X, Y, Y],
+        vec![X, Const(2), Const(2)],
+        vec![Const(1), Const(1), X],
+        vec![X, Wild, Const(1)],
+    ];
+    for wa in &watoms {
+        let has_y = wa.contains(&Y);
+        let mut partners: Vec<Option<Lit>> = vec![None, Some(pos("n", &[X])), Some(pos("e", &[X, Z]))];
+        if has_y {
+            partners.push(Some(pos("e", &[X, Y])));
+            partners.push(Some(pos("e", &[Y, X])));
+        }
+        if !b.quick {
+            partners.push(Some(pos("e", &[Z, X])));
+            partners.push(Some(neg("m", &[X])));
+        }
+        for pt in &partners {
+            for w_first in [true, false] {
+                if pt.is_none() && !w_first {
+                    continue;
+                }
+                let mut body = vec![];
+                if w_first {
+                    body.push(pos("w", wa));
+                }
+                if let Some(p) = pt {
+                    body.push(p.clone());
+                }
+                if !w_first {
+                    body.push(pos("w", wa));
+                }
+                let uses_z = body.iter().any(|l| matches!(l, Lit::Pos(a) if a.args.contains(&Z)));
+                let mut heads: Vec<Vec<Term>> = vec![vec![X]];
+                if has_y {
+                    heads.push(vec![X, Y]);
+                }
+                if uses_z {
+                    heads.push(vec![X, Z]);
+                }
+                for h in heads {
+                    out.push(GenProg { family: "F9", prog: Program { clauses: vec![q(&h, body.clone())] } });
+                    // through an intermediate rule
+                    if !b.quick || h.len() == 1 {
+                        let a: Vec<Term> = (0..h.len()).map(|i| Var(i as u8)).collect();
+                        out.push(GenProg { family: "F9", prog: Program { clauses: vec![clause("a", &h, body.clone()), q(&a, vec![pos("a", &a)])] } });
+                    }
+                }
+            }
+        }
+    }
+    out
+}
+
 pub fn all_families(b: &Bounds, which: &[&str]) -> Vec<GenProg> {
     let mut out = vec![];
     for w in which {
@@ -875,6 +939,7 @@ pub fn all_families(b: &Bounds, which: &[&str]) -> Vec<GenProg> {
             "F6" => out.extend(f6(b)),
             "F7" => out.extend(f7()),
             "F8" => out.extend(f8(b)),
+            "F9" => out.extend(f9(b)),
             _ => panic!("unknown family {w}"),
         }
     }
